@@ -455,6 +455,22 @@ fn c13_wire(seed: u64, rep: &Report) -> Result<(), String> {
         let q = rng.pick(&["'", ""]).to_string();
         let semi = if rng.chance(1, 3) { ";" } else { "" };
         match rng.below(9) {
+            0 if rng.chance(1, 8) => {
+                // a number that fits no machine word: whatever the pooler makes of it (its own error,
+                // or not its business and passed on), the client gets a complete reply and the
+                // session's shard stays what it was
+                let s = format!("{}{}", rng.range(1, 9), "9".repeat(rng.range(20, 45) as usize));
+                let sql = format!("{} {}{}{}{}", case(&mut rng, "set shard to"), q, s, q, semi);
+                rep.count("wire_commands", 1);
+                rep.count("wire_set_shard_beyond_u64", 1);
+                match c.query(&sql, 4000) {
+                    Ok(_) => {}
+                    Err((m, e)) => {
+                        rep.violation("C13|command_got_no_complete_reply|cmd=set_shard|value=beyond_u64", &format!("`{}` got {:?} after {}", sql, e, summarize(&m)), json!({"seed": seed}));
+                        return Ok(());
+                    }
+                }
+            }
             0 if rng.chance(1, 4) => {
                 // a shard the pool does not have: refused, and the session stays where it was
                 let s = n + rng.below(4) as usize;
@@ -539,7 +555,10 @@ fn c13_wire(seed: u64, rep: &Report) -> Result<(), String> {
     // no bare command text may have reached any mock
     for e in cell.log.snapshot() {
         if let Ev::MockMsg { bytes, origin, typ, .. } = &e.ev {
-            if *origin == Origin::Unattributed && *typ == b'Q' {
+            // (a SET SHARD whose number does not fit 64 bits is outside the documented surface: it
+            // may be answered by the pooler or passed on)
+            let beyond_u64 = { let t = String::from_utf8_lossy(bytes); t.bytes().filter(|b| b.is_ascii_digit()).count() >= 21 };
+            if *origin == Origin::Unattributed && *typ == b'Q' && !beyond_u64 {
                 rep.violation("C13|command_forwarded_to_server", &format!("a pooler command reached a server: {}", printable(bytes, 100)), json!({"seed": seed}));
             }
         }
@@ -612,8 +631,26 @@ fn c19_wire(seed: u64, plugins_on: bool, rep: &Report) -> Result<(), String> {
     let mut rng = Rng::new(seed);
     let (mut cell, mut cfg) = simple_cell(&["primary"], 2, "transaction");
     cfg.pools[0].set("query_parser_enabled", "true");
+    // where the plugin configuration lives: in the pool's own section (which wins over a global
+    // one), or only in the global [plugins] section (the default for pools without their own)
+    let global = |t: &str| t.replace("pools.{POOL}.plugins", "plugins");
+    let level = rng.below(3);
     if plugins_on {
-        cfg.pools[0].raw_tables = PLUGINS.to_string();
+        match level {
+            0 => cfg.pools[0].raw_tables = PLUGINS.to_string(),
+            1 => cfg.raw_tail.push_str(&global(PLUGINS)),
+            _ => {
+                // the pool's own section next to a global one that lists something else and intercepts nothing
+                cfg.pools[0].raw_tables = PLUGINS.to_string();
+                cfg.raw_tail.push_str(&global(PLUGINS).replace("tables = [\"pg_user\", \"secrets\", \"Orders\"]", "tables = [\"listed_for_other_pools_only\"]").replace("[plugins.intercept]\nenabled = true", "[plugins.intercept]\nenabled = false"));
+            }
+        }
+        rep.set_add("plugin_configuration_level", ["pool", "global_only", "pool_over_global"][level as usize]);
+    } else if level == 2 {
+        // a global section that blocks and intercepts, and a pool that switches its plugins off
+        cfg.pools[0].raw_tables = PLUGINS.replace("enabled = true", "enabled = false");
+        cfg.raw_tail.push_str(&global(PLUGINS));
+        rep.set_add("plugin_configuration_level", "pool_disables_global");
     }
     // half of the scenarios with the prepared-statement cache on, and a third in session mode
     // (the client keeps its server, buffered extended messages of a denied batch have somewhere to go)
